@@ -489,7 +489,14 @@ var _ = core.Sig
 // used so that the number of VoD roots and cached server instances per worker stays bounded; the
 // full spec travels in the scenario, so a replay file is self-contained.
 
-const genFamily = 64
+// Members 64 and 65 are the first two members whose video timescale is 1000 or 25000, re-declared at 10 MHz
+// (the 100 ns clock of Smooth-Streaming-derived content): media times of today then need more than 53 bits,
+// and products with another timescale more than 64.
+const genFamily = 66
+
+// genFamilyDrawn: the members the registered checks draw. The two 10 MHz members are only reached with the probe switch
+// VERIF_PROBE_10MHZ=1 (DESIGN 13.3c: such assets are broadly mis-served by the pinned tree; not registered).
+const genFamilyDrawn = 64
 
 type GenWorld struct {
 	K    int          `json:"k"`
@@ -542,6 +549,33 @@ func buildDerived(root string, d DerivedSpec) error {
 
 // genSpec returns generated asset k of the family (class good: must be served).
 func genSpec(k int) hx.AssetSpec {
+	if k >= 64 {
+		found := 0
+		for b := 0; b < 64; b++ {
+			sp := genSpec(b)
+			scalable := true
+			for _, r := range sp.Reps {
+				if r.Kind == "video" && r.Timescale != 1000 && r.Timescale != 25000 {
+					scalable = false
+				}
+			}
+			if !scalable || len(sp.Reps) == 0 || sp.Reps[0].Kind != "video" {
+				continue
+			}
+			if found == k-64 {
+				sp.Name, sp.Tag = fmt.Sprintf("gen/a%02d", k), uint32(1000+k)
+				for i := range sp.Reps {
+					if r := &sp.Reps[i]; r.Kind == "video" {
+						f := 10_000_000 / r.Timescale
+						r.Timescale, r.FrameDur, r.Start, r.GapTicks = r.Timescale*f, r.FrameDur*f, r.Start*uint64(f), r.GapTicks*uint64(f)
+					}
+				}
+				return sp
+			}
+			found++
+		}
+		panic("harness: no generated asset with a video timescale that scales to 10 MHz")
+	}
 	rng := core.NewRng(0x9e3779b9 + uint64(k)*7919)
 	return hx.RandomAssetSpec(rng, hx.GenOpts{Name: fmt.Sprintf("gen/a%02d", k), Tag: uint32(1000 + k), Class: "good", MaxSegs: 8, MaxFrames: 600})
 }
@@ -590,6 +624,9 @@ func genRoot(g GenWorld) string {
 // pickWorld draws the VoD world of a timeline scenario: a bundled asset, or (with probability
 // pGen) generated asset k. onlyWith filters representations kinds needed ("audio", "video", "").
 func pickGenWorld(rng *core.Rng) *GenWorld {
-	k := rng.Intn(genFamily)
+	k := rng.Intn(genFamilyDrawn)
+	if os.Getenv("VERIF_PROBE_10MHZ") != "" {
+		k = 64 + k%2 // probe switch (DESIGN 13.3c): not part of the registered checks
+	}
 	return &GenWorld{K: k, Spec: genSpec(k)}
 }
